@@ -26,11 +26,13 @@ ASSUMPTIONS = ['radial functions f_n(x) = x**n',
                'coefficient-wise = 1 + (sum of |coefficients| of inv) x (sum of |coefficients| of T) x matrix size',
                'higher-order coefficients of the inverted expansions have modulus 0.09..0.66 (series well conditioned)',
                'matrices with condition number above 10 and leading terms with singular values outside 0.6..1.8 are not generated']
-REQUIRED_OBS = {'eval:C17:rot-table': 150, 'eval:C17:rotate': 150, 'eval:C17:rotate-call': 150, 'eval:C17:irotate': 50,
-                'eval:C17:rotate-compose': 50, 'eval:C17:rotate-reduce': 50, 'nonorthogonal_rotations': 50,
-                'eval:C17:inv-identity': 300, 'eval:C17:inv-coeff': 100, 'eval:C17:inv-orders': 50,
-                'inv_trials_3d': 20, 'inv_trials_2d': 20, 'rot_trials_3d': 20, 'rot_trials_2d': 20, 'inv_series_terms_ge2': 10,
-                'inv_matrix_lead': 20, 'rotate_lower_degree_rows': 20}
+REQUIRED_OBS = {'eval:C17:rot-table': 400, 'rot_table_rows': 3000, 'eval:C17:rotate': 400, 'eval:C17:rotate-call': 600,
+                'eval:C17:irotate': 200, 'eval:C17:rotate-compose': 250, 'eval:C17:rotate-reduce': 120,
+                'nonorthogonal_rotations': 100, 'rotate_padded_terms': 40, 'rotate_lower_degree_rows': 300,
+                'reduced_rotated_lowered_l': 5,
+                'eval:C17:inv-identity': 1500, 'eval:C17:inv-coeff': 250, 'eval:C17:inv-orders': 200, 'eval:C17:inv-call': 100,
+                'inv_trials_3d': 60, 'inv_trials_2d': 60, 'rot_trials_3d': 60, 'rot_trials_2d': 60,
+                'inv_series_terms_ge2': 30, 'inv_matrix_lead': 60, 'inv_product_reduced_to_identity': 200}
 CASE_TIMEOUT = 300
 LIMITS = ('expansions that are not parity consistent or contain negative radial orders are outside the domain of rotate; '
           'inverses whose intermediate products exceed Lmax within the requested order are not generated')
@@ -217,6 +219,8 @@ def trial_inv(ctx):
     for attempt in range(60):
         nt = int(rng.integers(0, 4)) if attempt < 59 else 0
         ks = sorted(rng.choice(np.arange(1, max(J, 1) + 2), size=min(nt, max(J, 1) + 1), replace=False).tolist())
+        if ks and attempt < 30 and rng.uniform() < 0.5:
+            ks = sorted(set([1] + ks[1:]))  # a first-order term: the series reaches its higher powers
         style = rng.uniform()
         cand = []
         for kk in ks:
